@@ -78,6 +78,12 @@ def build_real(prog, log):
                 n = u[0].accumulate(FUNCS["accrs"], start=0, returns_state=True, with_state=True)
             elif k == "filterargs":
                 n = u[0].filter(FUNCS["gtk"], 1, hi=2)
+            elif k == "accwsns":
+                n = u[0].accumulate(FUNCS["accw"], w=2, with_state=True)            # no start: the first element is the state
+            elif k == "flattenview":
+                n = u[0].map(FUNCS["mkview"]).flatten()                               # elements that are iterable but not sequences
+            elif k == "freq":
+                n = u[0].frequencies()
             elif k == "accws":
                 n = u[0].accumulate(FUNCS["accw"], start=0, w=2, with_state=True)
             elif k == "pkey":
@@ -141,6 +147,10 @@ def build_real(prog, log):
                     n = sc.combine_latest(*u, emit_on=u[eo[0]])
                 elif len(eo) == 1 and spec[2] == "int":
                     n = sc.combine_latest(*u, emit_on=eo[0])
+                elif spec[2] == "tuple":
+                    n = sc.combine_latest(*u, emit_on=tuple(u[i] for i in eo))       # any iterable of streams, not only a list
+                elif spec[2] == "streams":
+                    n = sc.combine_latest(*u, emit_on=[u[i] for i in eo])
                 else:
                     n = sc.combine_latest(*u, emit_on=list(eo))
             elif k == "zl":
